@@ -209,9 +209,10 @@ template<class P> static std::string session(const Toks & t)
     if (t.size() < 3) { throw vp::BadOp(); }
     size_t n = vp::parseU(t[2]);
     if (n == 0 || t.size() != 3 + n * DIM) { throw vp::BadOp(); }
-    auto pts = std::make_unique<PointSet<P>>(parsePoints<P>(t, 3, n));
+    // the kept PointSet OBJECT is refilled in place (same address, like a scan buffer reused by a robot loop); the kept tree is rebuilt
+    // on it. An estimator or tree that recognises "the same cloud" by address / size (seeded change c09c) sees new coordinates there.
     kept.tree.reset();
-    kept.pts = std::move(pts);
+    if (kept.pts) { *kept.pts = parsePoints<P>(t, 3, n); } else { kept.pts = std::make_unique<PointSet<P>>(parsePoints<P>(t, 3, n)); }
     kept.tree = std::make_unique<KdTree<P>>(*kept.pts);
     return "ok " + std::to_string(n);
   }
